@@ -313,6 +313,10 @@ def gen_cases(rng, tier, ctx):
         for ld in ('u8', 'u4'):
             cases.append(dict(c, len_dtype=ld))
             cases.append(dict(c, len_dtype=ld, driver='feature'))
+    # ---- round 5: shorter segment in a larger hole, then an append on the refusal threshold (capacity vs defined length)
+    for c in c19_families.short_in_hole_family():
+        cases.append(dict(c, len_dtype='u8'))
+        cases.append(dict(c, len_dtype='u8', driver='feature'))
     cases.append({'kind': 'hist', 'driver': 'feature', 'total': 2000, 'ops': [
         ['upload', 1, [[11, 208], [15, 400], [26, 256], [4, 192]], True], ['upload', 1, [[11, 208], [25, 400], [23, 384]], True]]})
     return cases
@@ -771,6 +775,23 @@ def clauses(case, obs):
     return None
 
 
+def hist_decisions(case, obs):
+    """round 5: every decision the driver obtained inside the history, judged by the four clauses against the driver's
+    OWN arrays at the moment of the call (slot hashes, reference counts, CAPACITIES) and the instrument's total capacity.
+    Python oracle only (the Coq case carries the states, not the decisions)."""
+    for k, st in enumerate(obs['steps']):
+        for dc in st.get('decisions', ()):
+            if 'ret' not in dc:
+                continue                                       # the placement refused: nothing is written
+            pc = {'hashes': dc['hashes'], 'refs': dc['refs'], 'caps': dc['caps'], 'total': case['total'],
+                  'new_hashes': dc['new_hashes'], 'new_lens': dc['new_lens']}
+            why = clauses(pc, {'ret': dc['ret']})
+            if why:
+                return 'step %d (%s): decision inside the history, judged on the driver\'s own arrays %r: %s' % (
+                    k, case['ops'][k][0], pc, why)
+    return None
+
+
 def hist_safe(case, obs):
     for k, st in enumerate(obs['steps']):
         if HERR.get(st['err'], 'HInternal') == 'HInternal':
@@ -824,16 +845,30 @@ def hist_capacity(case, obs):
 
 
 def py_spec(case, obs):
+    try:
+        return _py_spec(case, obs)
+    except Exception as e:       # an observation the oracle cannot even read is not an acceptable one
+        return 'the oracle could not read the observation (%s: %s)' % (type(e).__name__, e)
+
+
+def _py_spec(case, obs):
     if 'crash' in obs or 'hang' in obs:
         return 'implementation crashed: %r' % (obs,)
     if case['kind'] == 'hist':
-        return hist_safe(case, obs) or hist_capacity(case, obs)
+        return hist_safe(case, obs) or hist_capacity(case, obs) or hist_decisions(case, obs)
     if case['kind'] == 'prim':
         return None             # the primitives' specification is Corr.prim_spec (evaluated in Coq)
     return clauses(case, obs)
 
 
 def nontrivial(case, obs):
+    try:
+        return _nontrivial(case, obs)
+    except Exception:
+        return False
+
+
+def _nontrivial(case, obs):
     if case['kind'] == 'prim':
         return len(case.get('a', case.get('data', case.get('m', case.get('r', case.get('w', [])))))) >= 2
     if case['kind'] == 'hist':
@@ -884,11 +919,18 @@ def _hist_keys(case, obs):
             keys.append('hist:cleanup-dropped-slots')
         if any(l < c for l, c in zip(st['lens'], st['caps'])):
             keys.append('hist:lens:slot-defined-shorter-than-capacity')
+            if op[0] == 'upload' and prev is not None and any(l < c for l, c in zip(prev['lens'], prev['caps'])):
+                slack = sum(c - l for l, c in zip(prev['lens'], prev['caps']))
+                room = case['total'] - sum(prev['caps']) - sum(n + 16 for _, n in op[2])
+                if st['err'] in ('Fragmentation', 'NotEnoughMemory') and -slack <= room < 0:
+                    keys.append('hist:lens:append-refused-within-the-slack-of-shorter-defined-slots')
+                if st['err'] is None and room == 0 and len(st['dev']) > len(prev['dev']):
+                    keys.append('hist:lens:append-fits-exactly-behind-shorter-defined-slots')
         if prev is not None and op[0] == 'upload' and st['err'] is None and len(st['dev']) > len(prev['dev']) - 0:
             keys.append('hist:lens:amend-' + ('flush-length-table' if st['flushes'] > prev['flushes'] else 'per-segment-def'))
         if prev is not None and op[0] == 'upload' and st['err'] is None and prev['refs'] and len(prev['refs']) >= 2:
             # the upload re-used a slot that was unreferenced and behind the last referenced slot (seed C19-6 class)
-            last_ref = max(i for i, r in enumerate(prev_after_free(prev, op)) if r > 0)
+            last_ref = max((i for i, r in enumerate(prev_after_free(prev, op)) if r > 0), default=-1)
             pr = prev_after_free(prev, op)
             new = [p for p in st['progs'] if p[0] == op[1]]
             if new and any(q > last_ref and q < len(pr) and pr[q] == 0 and prev['hashes'][q] == h
@@ -901,6 +943,16 @@ def _hist_keys(case, obs):
 
 
 def histogram_keys(case, obs):
+    # round 5: statistics must never take the check down — a changed implementation may deliver observations the keys
+    # were not written for (seed C19-4 left NO slot with a positive count; `max()` of nothing crashed the whole run,
+    # which try_seed then reported as "missed")
+    try:
+        return _histogram_keys(case, obs)
+    except Exception as e:
+        return [case.get('kind', '?'), 'obs:histogram-keys-failed:%s' % type(e).__name__]
+
+
+def _histogram_keys(case, obs):
     if case['kind'] == 'hist':
         return _hist_keys(case, obs)
     if case['kind'] == 'prim':
